@@ -566,6 +566,11 @@ def D7_hint_table(repo, clause):
         txt = _canon(v)
         if "unravel_index" in txt and "argmax" in txt and v[0] == "sub[]" and v[2][0] == "const":
             return "farthest-pair[%d]" % v[2][1]
+        if v[0] == "sub[]" and v[2][0] == "const" and isinstance(v[1], tuple) and v[1][0] == "call" and v[1][1] == "divmod" and len(v[1][2]) == 3:
+            # divmod(argmax(M), number of columns of M) = (row, column) of the maximum of a 2-D array
+            a_, b_ = v[1][2][1], v[1][2][2]
+            if isinstance(a_, tuple) and a_[0] == "mcall" and a_[2] == "argmax" and len(a_[3]) == 2 and a_[4] == ("kws",) and "shape" in _canon(b_) and _canon(a_[3][1]) in _canon(b_):
+                return "farthest-pair[%d]" % v[2][1]
         if "argmax" in txt and v[0] == "mcall" and v[2] == "argmax":
             inner = [x for x in _walk(v) if isinstance(x, tuple) and x and x[0] == "hint"]
             rows = sorted({x[1] for x in inner})
@@ -618,7 +623,8 @@ def D7_hint_table(repo, clause):
             _, A, w, g = b[0]
             d = "%s resolves WRONGLY in %d of %d hint combinations; e.g. axisp1_idx=%r axisp2_idx=%r opoint_idx=%r, more than two atoms=%s: documented `%s`, code gives `%s`" % (
                 h, len(b), total, A["axisp1_idx"], A["axisp2_idx"], A["opoint_idx"], A["more_than_two"], w, g)
-        obs.append(Ob("D7", clause, fn, fn.node, not b, d, construct="def find_pattern_in_structure hints", slot="hint-table:%s" % h, positive=True))
+        unknown_only = bool(b) and all(x[3].startswith("other:") for x in b)
+        obs.append(Ob("D7", clause, fn, fn.node, not b, d, construct="def find_pattern_in_structure hints", slot="hint-table:%s" % h, positive=not unknown_only, undecided=unknown_only))
     return obs
 
 
